@@ -94,6 +94,36 @@ func callables() []string {
 	return detCallables
 }
 
+// every bound name of the language and library packages whose value is NOT a
+// function (type definitions, constants, ...), exported or not: pkg:name
+// reaches them all
+var detValues []string
+
+func plainValues() []string {
+	if detValues != nil {
+		return detValues
+	}
+	w, err := NewWorld(Knobs{Stdlib: true})
+	if err != nil {
+		return nil
+	}
+	for _, pkg := range []string{"lisp", "json", "string", "math", "regexp", "base64", "s", "time", "help"} {
+		p := w.RT.Registry.Package(pkg)
+		if p == nil {
+			continue
+		}
+		for _, n := range p.SymbolNames() {
+			v, ok := p.Symbol(n)
+			if !ok || v.Type == lisp.LFun || strings.HasPrefix(n, "_") {
+				continue
+			}
+			detValues = append(detValues, pkg+":"+n)
+		}
+	}
+	sort.Strings(detValues)
+	return detValues
+}
+
 type detGen struct {
 	r   *Rand
 	n   int
@@ -246,7 +276,31 @@ func (g *detGen) observe(v *Node) *Node {
 }
 
 func (g *detGen) form() *Node {
-	switch g.r.Pick([]int{10, 3, 2, 2, 2, 2, 1, 2, 3, 2, 2, 2, 3, 3, 1, 8, 3, 3, 3, 3, 3}) {
+	switch g.r.Pick([]int{10, 3, 2, 2, 2, 2, 1, 2, 3, 2, 2, 2, 3, 3, 1, 8, 3, 3, 3, 3, 3, 4}) {
+	case 21:
+		// values of the packages that are not functions (type definitions,
+		// constants), and user-defined types, put where a type or a function
+		// is expected, with too few, the right number and too many arguments
+		var v string
+		if vs := plainValues(); len(vs) > 0 && g.r.Chance(2, 3) {
+			v = vs[g.r.Intn(len(vs))]
+		} else {
+			v = g.sym("ty")
+			body := PickNode(g.r, Call("list", A("p"), A("q")), Call("sorted-map", Str("p"), A("p")), Call("error", QS("bad-ty"), A("p")), Call("car", A("q")))
+			g.out = append(g.out, L(A("deftype"), A(v), L(A("p"), A("q")), body))
+		}
+		var args []*Node
+		for i := g.r.Range(0, 3); i > 0; i-- {
+			args = append(args, PickNode(g.r, g.scalar(), QS("point"), g.closure(), g.mapExpr(0)))
+		}
+		return PickNode(g.r,
+			L(append([]*Node{A("new"), A(v)}, args...)...),
+			L(append([]*Node{A(v)}, args...)...),
+			L(append([]*Node{A("funcall"), A(v)}, args...)...),
+			Call("format-string", Str("{} {}"), A(v), Call("type", A(v))),
+			Call("type?", A(v), PickNode(g.r, g.scalar(), g.mapExpr(0))),
+			Call("to-string", A(v)),
+			Call("list", A(v), Call("new", A(v))))
 	case 20:
 		// errors that could name several offenders at once
 		pk := g.sym("un")
@@ -378,6 +432,23 @@ func (g *detGen) form() *Node {
 	case 8:
 		// documented user functions looked up through the help package; the
 		// noise program defines other documented functions in other runtimes
+		if g.r.Chance(1, 3) {
+			// variables bound to native values (a host handle full of
+			// pointers, library natives), looked up, printed and reported
+			hv := g.sym("hv")
+			g.out = append(g.out, Call("set", QS(hv), PickNode(g.r, Call("sim:handle"), Call("sim:handle"),
+				Call("time:parse-duration", Str("3s")), Call("time:parse-rfc3339", Str("2020-01-02T03:04:05Z")), Call("list", Call("sim:handle"), I(1)))))
+			return PickNode(g.r,
+				Call("help:help", A(hv)),
+				Call("progn", Call("export", QS(hv)), Call("help:help-package", QS("user"))),
+				Call("format-string", Str("{} {}"), A(hv), Call("type", A(hv))),
+				Call("to-string", A(hv)),
+				Call("error", QS("with-handle"), A(hv)),
+				Call("json:dump-string", A(hv)),
+				Call("sorted-map", Str("h"), A(hv)),
+				Call("car", A(hv)),
+				Call("equal?", A(hv), A(hv)))
+		}
 		f := g.sym("hf")
 		doc := fmt.Sprintf("Documentation text %d for %s.", g.r.Intn(1000), f)
 		g.out = append(g.out, L(A("defun"), A(f), L(A("x"), A("y")), Str(doc), Call("list", A("x"), A("y"))))
@@ -450,6 +521,12 @@ func (g *detGen) program(n int) []*Node {
 	var body []*Node
 	for i := 0; i < n; i++ {
 		f := g.form()
+		if g.r.Chance(1, 3) {
+			// the error as the HOST would see and log it: message (with the
+			// name of the function that raised it) and trace
+			body = append(body, Call("debug-print", Call("sim:errtext", f)))
+			continue
+		}
 		// every form's value (or the error it raises) reaches the transcript
 		body = append(body, Call("debug-print", L(A("handler-bind"),
 			L(L(A("condition"), L(A("lambda"), L(A("c"), A("&rest"), A("d")), Call("list", QS("caught"), A("c"), A("d"))))), f)))
